@@ -218,9 +218,12 @@ class RigTransportBase:
             now = time.monotonic()
             if end is not None and now >= end:
                 return
-            if now >= self.release_at:
+            # only a read on a silent device (`hang`) gives up at the release time; a read of finite length is never cut
+            # short by the rig (a program whose deadline falls on the release tick once got "read released" instead of its
+            # ScrapliTimeout)
+            if end is None and now >= self.release_at:
                 raise RigError("read released")
-            lim = min(x for x in (end, self.release_at) if x is not None) - now
+            lim = (end if end is not None else self.release_at) - now
             time.sleep(max(min(lim, 0.005), 0))
             if self.closed and self.close_wakes:
                 raise RigError("closed while blocked in read")
@@ -231,9 +234,9 @@ class RigTransportBase:
             now = time.monotonic()
             if end is not None and now >= end:
                 return
-            if now >= self.release_at:
+            if end is None and now >= self.release_at:      # see block()
                 raise RigError("read released")
-            lim = min(x for x in (end, self.release_at) if x is not None) - now
+            lim = (end if end is not None else self.release_at) - now
             await asyncio.sleep(max(min(lim, 0.005), 0))
             # asyncio reads are ended by cancellation, not by close(): a task that nobody cancels keeps waiting
             # (model: runA does not look at `closed`); this keeps the orphan observation deterministic
@@ -1840,18 +1843,24 @@ def evaluate(ck, c, r, m):
     noisy = all(a.get("hb_gap", 0) > NOISY for a in attempts)
     tie = kind == "stack" and c["t_ops"] == c["t_tr"] and c["t_ops"] > 0
     mism = []
+    # an exception of the RIG itself where the model expects no error is rig trouble, not an observation of scrapli: it was
+    # re-measured above (up to 3 runs); if it persists its outcome is compared with nothing and judged by nothing — only the
+    # clock still counts (a silent-device read that gave up late IS an observation of a limit that did not fire)
+    rig_exc = r.get("exc") == "RigError" and m["out"] != "error"
     swallowed = matcher({**case, "mech": c["mech"], "viol": "no_timeout", "exc": r.get("exc")})
     swallowed = swallowed is not None and is_open(ck, swallowed)    # known defect outside the decorator: outcome judged by the oracle only
     if v == "late" and noisy:
         raise_harness(ck, f"machine too loaded to time {case}: elapsed {[round(a['elapsed'], 2) for a in attempts]} vs predicted {pred_s}, heartbeat gaps {[round(a.get('hb_gap', 0), 3) for a in attempts]}")
     elif v != "ok":
         mism.append(f"time impl={[round(a['elapsed'], 3) for a in attempts]} model={pred_s} ({v})")
-    if r["out"] != m["out"]:
+    if rig_exc:
+        pass
+    elif r["out"] != m["out"]:
         if not swallowed:
             mism.append(f"outcome impl={r['out']}({r.get('exc')}) model={m['out']}")
     elif r["out"] == "timeout" and r["msg"] != m["msg"] and not tie:
         mism.append(f"message impl={r['msg']!r} model={m['msg']!r}")
-    if r["closed"] != m["closed"]:
+    if r["closed"] != m["closed"] and not rig_exc:
         mism.append(f"closed impl={r['closed']} model={m['closed']}")
     if not r["handler_same"]:
         mism.append("handler impl=changed model=same")
@@ -1875,6 +1884,7 @@ def evaluate(ck, c, r, m):
     info = {**case, "mech": c["mech"], "elapsed": round(r["elapsed"], 3), "out": r["out"], "msg": r["msg"], "exc": r.get("exc"), "closed": r["closed"],
             "nested_armed": nested_armed(c["prog"]),
             "inner_longer": any(t > t_top for d, t, _ in calls_ if d > 0) if t_top else False}
+    late_flagged = []
     want_mech = expected_mech(c)
     seen = r.get("mech_seen")
     if seen is not None and want_mech not in seen.split("/") and not (want_mech == "asyncio" and seen == "asyncio/direct"):
@@ -1899,36 +1909,39 @@ def evaluate(ck, c, r, m):
                 if not quiet:
                     raise_harness(ck, f"machine too loaded to judge the deadline of {case}")
                 else:
-                    ck.violation({**info, "viol": "late", "limit": limit}, f"raised/returned {el:.2f}s after the start, configured timeout {limit:.2f}s", matcher)
+                    late_flagged.append(1); ck.violation({**info, "viol": "late", "limit": limit}, f"raised/returned {el:.2f}s after the start, configured timeout {limit:.2f}s", matcher)
     if not t_top and kind == "stack" and c["t_tr"] and c["stall"] != "never" and promptable:
         if el > c["t_tr"] * TICK + tight and quiet:     # the blocked transport read has its own limit
-            ck.violation({**info, "viol": "late", "limit": c["t_tr"] * TICK}, f"transport read limit {c['t_tr'] * TICK:.2f}s, raised after {el:.2f}s", matcher)
-    # must time out when it cannot finish; must not when it can
-    all_t = [t for _, t, _ in calls_]
-    if nat_d is not None and armed and nat_d * TICK < min(armed) * TICK - 0.08:
-        if r["out"] != nat_o:
-            ck.violation({**info, "viol": "spurious", "want": nat_o}, "an operation that finishes well inside every timeout did not give its own result", matcher)
-    if t_top and promptable and nat_d is not None and nat_d * TICK > t_top * TICK + 0.08 and c["prog"][4][0] == "ret":
-        if r["out"] != "timeout":
-            ck.violation({**info, "viol": "no_timeout"}, "an operation that cannot finish inside its timeout did not raise ScrapliTimeout", matcher)
-    if not any(all_t):
-        # timeout 0 disables the limit: own outcome, however long it takes
-        if r["out"] != nat_o or r["elapsed"] < (nat_d or 0) * TICK - EPS or r["closed"]:
-            ck.violation({**info, "viol": "zero_not_disabled", "want": nat_o}, "timeout 0 did not disable the limit", matcher)
-        if r.get("workers", 0) or (r.get("mech_seen") not in (None, "direct", "asyncio/direct")):
-            ck.violation({**info, "viol": "zero_touched_state"}, "timeout 0: the call was not made directly", matcher)
-    # exception class and message; closed iff
-    if r["out"] == "timeout":
-        names = {n for _, t, n in calls_ if t > 0}
-        ok_msgs = {ORACLE_MESSAGES.get(n, ORACLE_DEFAULT) for n in names}
-        if r["exc"] != "ScrapliTimeout" or r["msg"] not in ok_msgs:
-            ck.violation({**info, "viol": "message", "allowed": sorted(ok_msgs)}, "timeout exception class/message is not the mapped one of a running decorated function", matcher)
-        if r["closed"] != (not c["no_term"]):
-            ck.violation({**info, "viol": "closed_iff"}, "on timeout the transport must be closed iff NO_TERMINATE_ON_TIMEOUT is off", matcher)
-        if r["closed"] and not c["no_term"] and r["close_calls"] < 1:
-            ck.violation({**info, "viol": "closed_iff"}, "close() not called", matcher)
-    elif r["closed"]:
-        ck.violation({**info, "viol": "closed_iff"}, "transport closed although no ScrapliTimeout was raised", matcher)
+            late_flagged.append(1); ck.violation({**info, "viol": "late", "limit": c["t_tr"] * TICK}, f"transport read limit {c['t_tr'] * TICK:.2f}s, raised after {el:.2f}s", matcher)
+    if rig_exc and not late_flagged:
+        raise_harness(ck, f"the rig itself raised {r.get('msg')!r} in {len(attempts)} run(s) of {case} where the model expects {m['out']}: rig trouble, nothing compared")
+    if not rig_exc:
+        # must time out when it cannot finish; must not when it can
+        all_t = [t for _, t, _ in calls_]
+        if nat_d is not None and armed and nat_d * TICK < min(armed) * TICK - 0.08:
+            if r["out"] != nat_o:
+                ck.violation({**info, "viol": "spurious", "want": nat_o}, "an operation that finishes well inside every timeout did not give its own result", matcher)
+        if t_top and promptable and nat_d is not None and nat_d * TICK > t_top * TICK + 0.08 and c["prog"][4][0] == "ret":
+            if r["out"] != "timeout":
+                ck.violation({**info, "viol": "no_timeout"}, "an operation that cannot finish inside its timeout did not raise ScrapliTimeout", matcher)
+        if not any(all_t):
+            # timeout 0 disables the limit: own outcome, however long it takes
+            if r["out"] != nat_o or r["elapsed"] < (nat_d or 0) * TICK - EPS or r["closed"]:
+                ck.violation({**info, "viol": "zero_not_disabled", "want": nat_o}, "timeout 0 did not disable the limit", matcher)
+            if r.get("workers", 0) or (r.get("mech_seen") not in (None, "direct", "asyncio/direct")):
+                ck.violation({**info, "viol": "zero_touched_state"}, "timeout 0: the call was not made directly", matcher)
+        # exception class and message; closed iff
+        if r["out"] == "timeout":
+            names = {n for _, t, n in calls_ if t > 0}
+            ok_msgs = {ORACLE_MESSAGES.get(n, ORACLE_DEFAULT) for n in names}
+            if r["exc"] != "ScrapliTimeout" or r["msg"] not in ok_msgs:
+                ck.violation({**info, "viol": "message", "allowed": sorted(ok_msgs)}, "timeout exception class/message is not the mapped one of a running decorated function", matcher)
+            if r["closed"] != (not c["no_term"]):
+                ck.violation({**info, "viol": "closed_iff"}, "on timeout the transport must be closed iff NO_TERMINATE_ON_TIMEOUT is off", matcher)
+            if r["closed"] and not c["no_term"] and r["close_calls"] < 1:
+                ck.violation({**info, "viol": "closed_iff"}, "close() not called", matcher)
+        elif r["closed"]:
+            ck.violation({**info, "viol": "closed_iff"}, "transport closed although no ScrapliTimeout was raised", matcher)
     # process-wide state
     if not r["handler_same"]:
         ck.violation({**info, "viol": "handler_not_restored"}, "SIGALRM handler after the call is not the handler before it", matcher)
